@@ -1,5 +1,5 @@
 (* Runs the extracted C09 model (coq/Alias/Select.v, Overload.v) on a line-based case file.
-   Numbers decimal, names/literals hex. Types: B<id> | L(<ty>) | G<name-id>.
+   Numbers decimal, names/literals hex. Types: B<id> | L(<ty>) | G<name-id> | I<kombination-id>(<ty>).
 
    POP                                          new alias population (fresh vocabulary and trie)
    T <tid> <tt> <hexlit|->                      plain token
@@ -34,6 +34,8 @@ let rec parse_ty s =
     | 'B' -> TBase (n_of_int (int_of_string (String.sub s 1 (n - 1))))
     | 'G' -> TGen (n_of_int (int_of_string (String.sub s 1 (n - 1))))
     | 'L' -> TList (parse_ty (String.sub s 2 (n - 3)))
+    | 'I' -> let k = String.index s '(' in
+             TInst (n_of_int (int_of_string (String.sub s 1 (k - 1))), parse_ty (String.sub s (k + 1) (n - k - 2)))
     | _ -> failwith ("bad type " ^ s)
 
 let split_semi line = List.map split_ws (String.split_on_char ';' line)
@@ -133,7 +135,7 @@ let () =
       let ops = List.map (fun f -> match String.split_on_char ':' f with
           | [t; a] -> (parse_ty t, a = "1") | _ -> failwith ("bad operand " ^ f)) opsf in
       let structs = List.map int_of_string structf in
-      let is_struct = function TBase i -> List.mem (int_of_n i) structs | _ -> false in
+      let is_struct = function TBase i -> List.mem (int_of_n i) structs | TInst _ -> true | _ -> false in
       let fails = List.map int_of_string failf in
       let oinst_ok d _ = not (List.mem (int_of_n d.od_id) fails) in
       let tg = if target = "-" then None else Some (parse_ty target) in
